@@ -48,6 +48,9 @@ func callNames(c *ssa.CallCommon) []string {
 		}
 		if gl, ok := v.X.(*ssa.Global); ok {
 			add("$global." + gl.Name())
+			if gl.Pkg != nil {
+				add("$global." + gl.Pkg.Pkg.Name() + "." + gl.Name())
+			}
 		}
 	case *ssa.Parameter:
 		add("$var." + v.Name())
@@ -192,6 +195,10 @@ func (g *Gen) noteCall(c *ssa.CallCommon, in ssa.Instruction, res *Val, prefix s
 				}
 				gn := fmt.Sprintf("$res:%s:%d", name, i)
 				g.ghostSorts[gn] = g.st.sortOf(r.Ty)
+				if g.ghostTypes == nil {
+					g.ghostTypes = map[string]types.Type{}
+				}
+				g.ghostTypes[gn] = r.Ty
 				s.ghost[gn] = r.T
 			}
 		}
@@ -367,12 +374,36 @@ func (g *Gen) execUserCall(c *ssa.CallCommon, in ssa.Instruction, recv *Val, arg
 		return g.applyContract(con, c, in, all, rt)
 	}
 	if callee == nil && !c.IsInvoke() {
+		for _, n := range callNames(c) {
+			if e.effectFreeFn[n] {
+				res := g.havocVal(rt, "r."+sanitize(n))
+				if e.nonNilResult[n] && res.Tuple == nil && res.T != "" {
+					g.assume(sx("distinct", res.T, "0"))
+				}
+				return res
+			}
+		}
+	}
+	if callee == nil && !c.IsInvoke() {
 		g.oblige("nilcall", "", sx("distinct", g.val(c.Value).T, "0"), g.pos(in), "call of a nil function value")
 	}
 	// no contract: havoc what the callee may write
 	if callee != nil && e.effectFree(callee) {
+		before := g.ghostTerm(g.cur, "$brk")
+		isFresh := false
+		for _, n := range funcNames(callee) {
+			if e.freshResult[n] {
+				isFresh = true
+			}
+		}
+		if isFresh {
+			g.bumpBrk()
+		}
 		res := g.havocVal(rt, "r."+shortName(callee))
 		g.knownResultFacts(callee, args, res)
+		if isFresh && res.Tuple == nil && res.T != "" {
+			g.assume(sx(">=", res.T, before))
+		}
 		return res
 	}
 	s := g.cur
@@ -431,6 +462,7 @@ func (g *Gen) applyContract(con *Contract, c *ssa.CallCommon, in ssa.Instruction
 	pre := g.cur.clone()
 	short := con.Key
 	sc := g.specCtx(env, g.cur, g.cur)
+	sc.callee = true
 	for i, cl := range con.Requires {
 		t, err := sc.evalBool(cl.E)
 		if err != nil {
@@ -467,6 +499,7 @@ func (g *Gen) applyContract(con *Contract, c *ssa.CallCommon, in ssa.Instruction
 	case con.Pure:
 	case con.HasMod:
 		msc := g.specCtx(env, g.cur, g.cur)
+		msc.callee = true
 		for _, m := range con.Modifies {
 			g.havocLval(msc, m)
 		}
@@ -479,10 +512,13 @@ func (g *Gen) applyContract(con *Contract, c *ssa.CallCommon, in ssa.Instruction
 	}
 	post := g.specCtx(env, g.cur, pre)
 	post.brkBefore = g.ghostTerm(pre, "$brk")
+	post.callee = true
 	for _, cl := range con.Ensures {
 		t, err := post.evalBool(cl.E)
 		if err != nil {
-			g.fail("callee %s ensures %s: %v", con.Key, cl.Src, err)
+			// the clause talks about the callee's internals (its locals or call
+			// history): it is proved of the callee but not visible to callers
+			continue
 		}
 		g.assume(t)
 	}
